@@ -78,13 +78,14 @@ type NextUse struct {
 
 // Rendered is a request as it must appear on the wire.
 type Rendered struct {
-	Def      *Request
-	Method   string
-	URI      string
-	Headers  map[string]string // canonical name -> value
-	Body     *string
-	NoValue  bool     // some reference had no value and rendered as "<no value>"
-	LiveRefs []string // kinds of the references that resolved to a value
+	Def         *Request
+	Method      string
+	URI         string
+	Headers     map[string]string // canonical name -> value
+	Body        *string
+	NoValue     bool     // some reference had no value and rendered as "<no value>" (as nothing with the html templater)
+	HTMLEscaped bool     // html templater: some value holds a character the HTML escaper rewrites
+	LiveRefs    []string // kinds of the references that resolved to a value
 }
 
 // StepOut is what the interpreter expects from the next step before any reply.
@@ -161,7 +162,9 @@ func (inv *Invocation) Step() *StepOut {
 			if v, err = inv.render(h.Value, r); err != nil {
 				break
 			}
-			r.Headers[canonHeader(h.Name)] = v
+			// HTTP carries a field value without the blanks around it (with the html templater a missing variable at
+			// the end of a value leaves the separator in front of it last)
+			r.Headers[canonHeader(h.Name)] = strings.Trim(v, " \t")
 		}
 	}
 	if err == nil && def.Body != nil {
@@ -403,6 +406,7 @@ func Show(v any) string {
 }
 
 func (inv *Invocation) render(t Tmpl, r *Rendered) (string, error) {
+	html := r.Def != nil && r.Def.Templater == TemplaterHTML
 	var sb strings.Builder
 	for _, p := range t {
 		if p.Ref == nil {
@@ -414,14 +418,95 @@ func (inv *Invocation) render(t Tmpl, r *Rendered) (string, error) {
 		case stError:
 			return "", fmt.Errorf("template execution error at %s: %s", Tmpl{p}.Text(), msg)
 		case stMissing:
-			sb.WriteString(NoValue)
 			r.NoValue = true
+			if html {
+				// html/template skips an untyped nil argument of its escaper (golang issue 25875):
+				// a missing key renders as nothing, not as an escaped "<no value>"
+				break
+			}
+			sb.WriteString(NoValue)
 		default:
-			sb.WriteString(Show(v))
+			if html {
+				shown := Show(v)
+				esc := HTMLEscape(shown)
+				r.HTMLEscaped = r.HTMLEscaped || esc != shown
+				sb.WriteString(esc)
+			} else {
+				sb.WriteString(Show(v))
+			}
 			r.LiveRefs = append(r.LiveRefs, p.Ref.Kind)
 		}
 	}
 	return sb.String(), nil
+}
+
+// TemplaterHTML is the `templater: {type: html}` of a request: Go's html/template. Every template pandora renders
+// (uri, each header value, body) is a template of its own and so begins in HTML text context; as long as the
+// literal text in front of an action holds no unfinished tag, no <script>, <style> or comment (LitKeepsHTMLText),
+// the action's value is written through html/template's HTML escaper and literal text is left as it is.
+const TemplaterHTML = "html"
+
+// HTMLEscape is html/template's escaper for text context (htmlReplacementTable of html/template/html.go, written
+// down here from its documentation; TestHTMLModel compares it with the library).
+func HTMLEscape(s string) string {
+	var sb strings.Builder
+	for _, c := range s {
+		switch c {
+		case 0:
+			sb.WriteString("\uFFFD")
+		case '"':
+			sb.WriteString("&#34;")
+		case '&':
+			sb.WriteString("&amp;")
+		case '\'':
+			sb.WriteString("&#39;")
+		case '+':
+			sb.WriteString("&#43;")
+		case '<':
+			sb.WriteString("&lt;")
+		case '>':
+			sb.WriteString("&gt;")
+		default:
+			sb.WriteRune(c)
+		}
+	}
+	return sb.String()
+}
+
+// LitKeepsHTMLText says whether a template whose literal parts are these keeps every action in HTML text context
+// and its literal text unchanged under html/template: every '<' opens a complete plain tag (<name> or </name>, name
+// not script / style / textarea / title, no attributes) inside one literal.
+func LitKeepsHTMLText(t Tmpl) bool {
+	for _, p := range t {
+		if p.Ref != nil {
+			continue
+		}
+		l := p.Lit
+		for i := 0; i < len(l); i++ {
+			switch l[i] {
+			case '>', 0:
+				return false
+			case '<':
+				j := i + 1
+				if j < len(l) && l[j] == '/' {
+					j++
+				}
+				k := j
+				for k < len(l) && (l[k] >= 'a' && l[k] <= 'z') {
+					k++
+				}
+				if k == j || k >= len(l) || l[k] != '>' {
+					return false
+				}
+				switch l[j:k] {
+				case "script", "style", "textarea", "title":
+					return false
+				}
+				i = k
+			}
+		}
+	}
+	return true
 }
 
 // ---- postprocessors ----
